@@ -202,6 +202,9 @@ def main():
             print("worktree failed", file=sys.stderr)
             continue
         rec = dict(key=key, file=fn, function=q, line=node.lineno, kind=kind, original=orig[:120], mutated=text[:120], properties=pids, results={})
+        if key in done and done[key].get("suite"):
+            rec["suite"] = done[key]["suite"]
+            rec["first_verdict"] = done[key].get("first_verdict") or done[key].get("verdict")
         try:
             open(os.path.join(wt, "src", "picosvg", fn), "w").write(new_src)
             imp = sh(f"cd {wt} && PYTHONPATH={wt}/src /venv/bin/python -c 'import picosvg.svg, picosvg.svg_reuse, picosvg.picosvg'", timeout=120)
@@ -239,10 +242,15 @@ def main():
         sk = [r for r in live if r.get("suite") == "kills"]
         f.write(f"repository suite kills {len(sk)} of {len(live)}; the checks detect {sum(r['verdict'] == 'DETECTED' for r in live)} "
                 f"(of the {len(live) - len(sk)} the suite lets through: {sum(r['verdict'] == 'DETECTED' for r in live if r.get('suite') != 'kills')})\n\n")
-        f.write("| file:line | function | kind | original -> mutant | suite | per property | verdict |\n|---|---|---|---|---|---|---|\n")
+        redo = [r for r in rows if r.get("first_verdict") and r["first_verdict"] != r["verdict"]]
+        if redo:
+            f.write(f"{len(redo)} mutants changed verdict when re-run after the checks were strengthened (column 'first run').\n\n")
+        f.write("| file:line | function | kind | original -> mutant | suite | per property | verdict | first run |\n|---|---|---|---|---|---|---|---|\n")
         for r in sorted(rows, key=lambda r: (r["verdict"], r["file"], r["line"])):
-            f.write(f"| {r['file']}:{r['line']} | {r['function']} | {r['kind']} | `{r['original'][:50]}` -> `{r['mutated'][:50]}` | {r.get('suite', '-')} | "
-                    + " ".join(f"{k}:{v}" for k, v in r["results"].items()) + f" | {r['verdict']} |\n")
+            orig = " ".join(r["original"].split())[:50].replace("|", "\\|")
+            mut = " ".join(r["mutated"].split())[:50].replace("|", "\\|")
+            f.write(f"| {r['file']}:{r['line']} | {r['function']} | {r['kind']} | `{orig}` -> `{mut}` | {r.get('suite', '-')} | "
+                    + " ".join(f"{k}:{v}" for k, v in r["results"].items()) + f" | {r['verdict']} | {r.get('first_verdict') or ''} |\n")
 
 
 if __name__ == "__main__":
